@@ -21,8 +21,10 @@ Inductive op :=
 (* a ProtocolMessenger method on a scripted MessageSender *)
 | ORpc (c : rpc) (rp : reply)
 (* one response of a seed peer inside a real lookup: bucket size, own id, lookup
-   key, tags of the ids the query filter accepts *)
-| OLookup (K : nat) (self target : bstr) (accept : list N) (rp : reply)
+   key, tags of the ids the query filter accepts, maxForTable of the routing-table
+   diversity filter (0: none configured), IP group of each decodable address of
+   the response by address tag (computed by manet.ToIP + peerdiversity.IPGroupKey) *)
+| OLookup (K : nat) (self target : bstr) (accept : list N) (limit : nat) (gm : list (N * N)) (rp : reply)
 (* a ProtocolMessenger method over the real messageSenderImpl on scripted streams:
    the context is cancelled at [cancel] (virtual ns) *)
 | OStream (c : rpc) (cancel : option Z) (a1 a2 : attempt).
@@ -36,6 +38,9 @@ Inductive obs :=
 
 Definition accepts (l : list N) (n : ainfo) : bool := existsb (N.eqb (b_tag (ai_id n))) l.
 
+Definition group_of (gm : list (N * N)) (a : addr) : option N :=
+  match find (fun e => N.eqb (fst e) (a_tag a)) gm with Some e => Some (snd e) | None => None end.
+
 Definition two_attempts (a1 a2 : attempt) (n : nat) : attempt :=
   match n with O => a1 | _ => a2 end.
 
@@ -45,8 +50,8 @@ Definition of_res {A} (r : res A) (f : A -> obs) : obs :=
 Definition model (o : op) : obs :=
   match o with
   | ORpc c rp => of_res (run_rpc c rp) BOut
-  | OLookup K self target accept rp =>
-      of_res (lookup_heard K self target (accepts accept) rp) BHeard
+  | OLookup K self target accept limit gm rp =>
+      of_res (lookup_heard_div K self target (accepts accept) (group_of gm) limit rp) BHeard
   | OStream c cancel a1 a2 =>
       of_res (rpc_over_stream c cancel (two_attempts a1 a2))
              (fun x => BStream (fst x)
@@ -120,7 +125,7 @@ Definition out_ok (o : rpc_out) : bool := forallb info_ok (infos_of o).
 Definition op_wire (o : op) : bool :=
   match o with
   | ORpc _ rp => wire_reply rp
-  | OLookup _ _ _ _ rp => wire_reply rp
+  | OLookup _ _ _ _ _ _ rp => wire_reply rp
   | OStream _ _ a1 a2 =>
       (match at_read a1 with RdMsg m => wire_msg m | _ => true end) &&
       (match at_read a2 with RdMsg m => wire_msg m | _ => true end)
@@ -147,8 +152,8 @@ Definition prop_ok (o : op) (b : obs) : bool :=
     | _, BBlocked => false
     | ORpc c rp, BOut out =>
         out_ok out && (match rp with RMsg rm => key_ok c rm out | RErr => true end)
-    | OLookup K _ _ _ _, BHeard (Some h) => (length h <=? 2 * K)%nat
-    | OLookup _ _ _ _ _, BHeard None => true
+    | OLookup K _ _ _ _ _ _, BHeard (Some h) => (length h <=? 2 * K)%nat
+    | OLookup _ _ _ _ _ _ _, BHeard None => true
     | OStream c _ a1 a2, BStream out e n t =>
         out_ok out && (n <=? 2)%nat && (t <=? 2 * dhtReadMessageTimeout)
         && (match e, out with
